@@ -38,7 +38,6 @@ Lemma seg_append_keep_eth a b s bs s' : seg_eth_ok a b s -> seg_append_data s bs
 Proof.
   intros H. unfold seg_append_data, seg_update_tot_len.
   destruct (cadd two32 _ _ _); cbn [obind]; try discriminate.
-  destruct (cadd two16 _ _ _); cbn [obind]; try discriminate.
   intros E. ok_inv E. exact H.
 Qed.
 
@@ -59,8 +58,7 @@ Theorem udp_addressed_eth raw s t b d :
   /\ udp_bytes (udp_broadcast d) = framed raw (eth_bcast_for (fst s)) (udp_l3_bytes d).
 Proof.
   intros E. destruct (udp_push_fields _ _ _ E) as (R & _).
-  unfold udp_push in E. destruct (cadd _ _ _ _); cbn [obind] in E; try discriminate.
-  destruct (cadd _ _ _ _); cbn [obind] in E; try discriminate. ok_inv E.
+  unfold udp_push in E. ok_inv E.
   split; reflexivity.
 Qed.
 
@@ -84,7 +82,7 @@ Theorem icmp_dgram_framed src dst raw typ id seq b p :
   exists l3, pk_body p = framed raw (eth_for src dst) l3
     /\ forall raw' p', icmp_dgram src dst raw' typ id seq b = Ok p' -> pk_body p' = framed raw' (eth_for src dst) l3.
 Proof.
-  unfold icmp_dgram. destruct (cadd _ _ _ _) as [t| | |]; cbn [obind]; try discriminate.
+  unfold icmp_dgram.
   intros E. ok_inv E. eexists. split; [reflexivity|]. intros raw' p' E'. ok_inv E'. reflexivity.
 Qed.
 
@@ -93,7 +91,7 @@ Theorem ipdgram_framed iph payload raw off mf p :
   exists l3, pk_body p = framed raw (eth_for (ip_src iph) (ip_dst iph)) l3
     /\ forall raw' p', ipdgram iph payload raw' off mf = Ok p' -> pk_body p' = framed raw' (eth_for (ip_src iph) (ip_dst iph)) l3.
 Proof.
-  unfold ipdgram. destruct (cadd _ _ _ _) as [t| | |]; cbn [obind]; try discriminate.
+  unfold ipdgram.
   intros E. ok_inv E. eexists. split; [reflexivity|]. intros raw' p' E'. ok_inv E'. reflexivity.
 Qed.
 
@@ -106,11 +104,11 @@ Lemma gre_new_eth src dst flags proto raw g :
   gre_new src dst flags proto raw = Ok g -> eth_ser (gr_eth g) = eth_for src dst /\ gr_raw g = raw.
 Proof.
   unfold gre_new. destruct (negb _).
-  - destruct (cadd _ _ _ _); cbn [obind]; try discriminate. intros E. ok_inv E. split; reflexivity.
+  - intros E. ok_inv E. split; reflexivity.
   - intros E. ok_inv E. split; reflexivity.
 Qed.
 Lemma gre_push_keep g b g' : gre_push g b = Ok g' -> gr_eth g' = gr_eth g /\ gr_raw g' = gr_raw g.
-Proof. unfold gre_push. destruct (cadd _ _ _ _); cbn [obind]; try discriminate. intros E. ok_inv E. split; reflexivity. Qed.
+Proof. unfold gre_push. intros E. ok_inv E. split; reflexivity. Qed.
 
 (* ---------------- eth::frame and eth::from_ip ---------------- *)
 Theorem eth_frame_wire_order s d et data h :
